@@ -257,6 +257,13 @@ def body(chk):
                     if mode == "label" and a["ex"]["kind"] == "int":
                         mode = "outer"
                     pairs.append((a["ex"], c["ex"], mode))
+                # integer x integer (0-d results) and empty-rows x column-window combinations, explicitly
+                for i in range(-n, n):
+                    for j in (0, -1, 2):
+                        pairs.append(({"kind": "int", "i": i}, {"kind": "int", "i": j}, "outer"))
+                for cs in ([1], [0], []):
+                    pairs.append(({"kind": "slice", "a": [0], "b": [0], "s": []}, {"kind": "slice", "a": cs, "b": [2], "s": []}, "outer"))
+                    pairs.append(({"kind": "slice", "a": [n], "b": [], "s": []}, {"kind": "int", "i": 1}, "outer"))
                 tasks.append(dict(n=n, sample=sample, rpc=rpc, points=sub, seed=chk.seed + n, pairs=pairs, fs="vtrace" if rpc % 2 else "local"))
     # random larger images: 40 x 17, Hypothesis-style random expressions judged by the twin (and the spec's formulas in Python form are not used)
     L.tables()
